@@ -42,7 +42,7 @@ fn gen(seed: u64, idx: u64, tier: Tier) -> Plan {
             Tier::Thorough => 1 + rng.below(50) as i64,
         };
         s.workers = 1;
-        Workload { sockets: 1 + rng.below(32) as u32, bursts: 6, max_burst: 100, ietf_permille: 500, with_srv_permille: 300, start_us: 1000 }
+        Workload { sockets: 1 + rng.below(32) as u32, bursts: 6, max_burst: 100, ietf_permille: 500, with_srv_permille: 300, start_us: 6000 }
     } else {
         Workload {
             sockets: 1 + rng.below(96) as u32,
@@ -50,7 +50,7 @@ fn gen(seed: u64, idx: u64, tier: Tier) -> Plan {
             max_burst: if rng.chance(1, 3) { 200 } else { 2 * s.batch_size as u32 + 2 },
             ietf_permille: *rng.pick(&[0u32, 300, 500, 700, 1000]),
             with_srv_permille: 300,
-            start_us: 1000,
+            start_us: 6000,
         }
     };
     plan.params.insert("grease_p".into(), s.fault_pct);
